@@ -360,7 +360,13 @@ func genVal(r *rand.Rand) string {
 	case 2:
 		return fmt.Sprintf("@%d:%d", 50+r.Intn(300), r.Intn(1<<20))
 	default:
-		return fmt.Sprintf("@%d:%d", []int{32700, 32768, 40000, 70000}[r.Intn(4)], r.Intn(1<<20))
+		// sizes aimed at the log record format (see bigEntry in c09.go): a value whose
+		// fragments end exactly at / one byte around a record boundary, or just any big one
+		_, vl := bigEntry(r, false)
+		if vl > 140000 {
+			vl = 70000
+		}
+		return lenTok(r, vl)
 	}
 }
 
